@@ -145,5 +145,6 @@ func setupRange(args ...string) (handler.Handler4, error) {
 		}
 	}
 
+	verifRegister(filename, &p)
 	return p.Handler4, nil
 }
